@@ -1458,7 +1458,7 @@ func checkC18Rooted(g *exGraph, s exStore, subsets [][]string, preload func([]st
 // ---------------------------------------------------------------------------------------------
 // C11e2e: the root location may be spelled in any equivalent way
 
-var exSpellingRewrites = map[string]bool{"dot": true, "updown": true, "dupslash": true, "file1": true, "file3": true, "schemecase": true, "fragment": true, "query": true}
+var exSpellingRewrites = map[string]bool{"dot": true, "updown": true, "dupslash": true, "dupfirst": true, "file1": true, "file3": true, "schemecase": true, "fragment": true, "query": true}
 
 func exRootSpellings(r *rng, loc string, k int) []string {
 	seen := map[string]bool{loc: true}
@@ -1953,12 +1953,13 @@ func replayC16(raw json.RawMessage) *oracleResult {
 // C17: concurrent use on independent data
 
 type exConcInput struct {
-	Goroutines int         `json:"goroutines"`
-	Tasks      []*exCall   `json:"tasks"`    // op additionally: shared_expand, marshal, pointer
-	Schedule   [][]int     `json:"schedule"` // per goroutine, indices into Tasks
-	Shared     *exGraph    `json:"shared"`   // the read-only document and the documents of the shared cache
-	Pointers   []string    `json:"pointers,omitempty"`
-	Note       interface{} `json:"note,omitempty"`
+	Goroutines        int         `json:"goroutines"`
+	Tasks             []*exCall   `json:"tasks"`    // op additionally: shared_expand, marshal, pointer
+	Schedule          [][]int     `json:"schedule"` // per goroutine, indices into Tasks
+	Shared            *exGraph    `json:"shared"`   // the read-only document and the documents of the shared cache
+	Pointers          []string    `json:"pointers,omitempty"`
+	LoaderDelayMicros int         `json:"loader_delay_us,omitempty"` // every document fetch takes this long, so that fetches of different callers overlap
+	Note              interface{} `json:"note,omitempty"`
 }
 
 type exConcEnv struct {
@@ -2091,6 +2092,8 @@ func checkC17(in *exConcInput) []exFinding {
 			}
 		}(gi, sched)
 	}
+	atomic.StoreInt64(&exLoaderDelay, int64(in.LoaderDelayMicros)*1000)
+	defer atomic.StoreInt64(&exLoaderDelay, 0)
 	close(start)
 	done := make(chan struct{})
 	go func() { wg.Wait(); close(done) }()
@@ -2100,6 +2103,7 @@ func checkC17(in *exConcInput) []exFinding {
 		return []exFinding{{Shape: "deadlock", What: fmt.Sprintf("%d goroutines do not finish within %s", len(in.Schedule), 6*exTimeout)}}
 	}
 	close(results)
+	atomic.StoreInt64(&exLoaderDelay, 0)
 	// sequential reference: each task alone, made after the concurrent phase so that the goroutines
 	// meet whatever lazily initialised state the library has in its cold state (the shared cache
 	// starts empty in both runs)
@@ -2139,10 +2143,20 @@ func oracleC17(r *rng, n int, tier string) *oracleResult {
 			shared := exRandomGraph(rr.fork(1), exGenOpts{Prefix: "/shared", Cycles: rr.intn(2), MaxDocs: 3})
 			t.graph(shared)
 			in := &exConcInput{Goroutines: N, Shared: shared}
-			// distinct roots: one graph per goroutine, each below its own prefix
+			// distinct roots: one graph per goroutine, each below its own prefix - or, every other round, independent callers
+			// whose documents happen to live at the same locations (two revisions of one tree, each behind its own loader),
+			// with fetches that take long enough to overlap
+			sameLocations := round%2 == 1
+			if sameLocations {
+				in.LoaderDelayMicros = 200
+			}
 			var own []*exGraph
 			for gi := 0; gi < N && gi < 8; gi++ {
-				g := exRandomGraph(rr.fork(uint64(10+gi)), exGenOpts{Prefix: "/g" + strconv.Itoa(gi), Cycles: rr.intn(3), MaxDocs: 3})
+				prefix := "/g" + strconv.Itoa(gi)
+				if sameLocations {
+					prefix = "/rev"
+				}
+				g := exRandomGraph(rr.fork(uint64(10+gi)), exGenOpts{Prefix: prefix, Cycles: rr.intn(3), MaxDocs: 3})
 				own = append(own, g)
 				t.graph(g)
 			}
